@@ -223,8 +223,11 @@ func c13Loop(r *Run, fn *ssa.Function) {
 	r.Rule("C13.R2")
 	r.ClassTable(fn, "retry:error-edge", header,
 		[]RuleAtom{{Name: "err", Pat: errAtom.Pat, Dom: []string{"non"}},
-			{Name: "canceled", Pat: "*PostAndParse(*)#2*g:context.Canceled*"},
-			{Name: "deadline", Pat: "*PostAndParse(*)#2*g:context.DeadlineExceeded*"}},
+			// identity comparison with the context sentinels: errors.Is would also match
+			// per-attempt transport timeouts (http.Client.Timeout wraps DeadlineExceeded)
+			// while the caller's context is alive, and end the retries early
+			{Name: "canceled", Pat: "(*PostAndParse(*)#2 == *g:context.Canceled)"},
+			{Name: "deadline", Pat: "(*PostAndParse(*)#2 == *g:context.DeadlineExceeded)"}},
 		[]string{"context-ended", "other-error"},
 		func(val map[string]string) string {
 			if val["canceled"] == "T" || val["deadline"] == "T" {
@@ -330,6 +333,16 @@ func c13Override(r *Run, v ssa.Value, reach *Reach, want string) (bool, string) 
 	}
 	var got []string
 	ok := true
+	// the parsed duration must reach backoff.set unmodified: no store through the
+	// pointer that is handed over (e.g. "*override += jitter")
+	if refs := v.Referrers(); refs != nil {
+		for _, ref := range *refs {
+			if st, isSt := ref.(*ssa.Store); isSt && st.Addr == v && reach.Has(st) {
+				got = append(got, "modified after parsing: *override ← "+r.D.D(st.Val))
+				ok = false
+			}
+		}
+	}
 	for _, l := range leaves {
 		if isNilConst(l) {
 			got = append(got, "nil")
